@@ -57,7 +57,7 @@ func (c16) Runs(tier string) int {
 	if tier == "thorough" {
 		return 200000
 	}
-	return 4000
+	return 8000
 }
 func (c16) RequiredProbes(string) []string {
 	return []string{"invalid_name_refused", "race_overlap", "setting_read_back"}
@@ -590,7 +590,7 @@ func (c16) Exec(c *core.Case) (out *core.Outcome) {
 					o.Probe("race_replaced_version_checked")
 					g := chk.Do(s3c.GetObjectVersion(b, "obj", vid))
 					if upRes.Resp.OK() && (g.Resp.Status != 200 || !bytes.Equal(g.Resp.Body, data)) {
-						o.Violate("delete-race", "C16/race/put-twice-versioned/acknowledged-version-lost", "%s: the first upload (version %s) was acknowledged and then replaced; reading that version now gives %d %s", desc, vid, g.Resp.Status, g.Resp.ErrCode())
+						o.Violate("delete-race", "C16/race/put-twice-versioned/acknowledged-version-lost/delete="+statusClass(delRes.Resp.Status), "%s: the first upload (version %s) was acknowledged and then replaced; reading that version now gives %d %s", desc, vid, g.Resp.Status, g.Resp.ErrCode())
 					}
 				}
 			}
